@@ -348,7 +348,26 @@ func (o Options) pathFromDocument(ldCtx *ld.Context, docObj interface{},
 			return nil, err
 		}
 
-		moreParts, err := o.pathFromDocument(ldCtx, docObj, newPathParts, true)
+		// a numeric segment selects a member of the array found at this
+		// position of the document; on a value that is not an array the
+		// index is kept as it is written
+		arr, isArr := docObj.([]interface{})
+		if !isArr {
+			moreParts, err := o.pathFromDocument(ldCtx, docObj, newPathParts,
+				true)
+			if err != nil {
+				return nil, err
+			}
+			return append([]interface{}{int(i64)}, moreParts...), nil
+		}
+		if i64 >= int64(len(arr)) {
+			return nil, fmt.Errorf(
+				"index %v is out of range of an array of %v elements",
+				i64, len(arr))
+		}
+
+		moreParts, err := o.pathFromDocument(ldCtx, arr[i64], newPathParts,
+			false)
 		if err != nil {
 			return nil, err
 		}
